@@ -485,7 +485,9 @@ func execC20(t *testing.T, raw json.RawMessage) *sim.Outcome {
 			up.Close()
 		})
 	})
+	spawnedBefore := simsync.Spawned()
 	s.Run()
+	chanProbes(o, s, spawnedBefore)
 	if os.Getenv("VERIF_DEBUG_TASKS") != "" {
 		for _, tk := range s.Tasks() {
 			bl, on := tk.IsBlocked()
